@@ -83,4 +83,10 @@ def xorCons (x n o : V) : List (LinCon V) :=
 def cutCon (vv : List V) : LinCon V :=
   ⟨vv.map (fun v => ((1 : Rat), v)), .le, (vv.length : Rat) - 1⟩
 
+/-- rename the variables of a model -/
+def mapIlp {V W : Type} (f : V → W) (m : Ilp V) : Ilp W where
+  vars := m.vars.map fun v => (f v.1, v.2)
+  cons := m.cons.map fun c => ⟨c.terms.map fun t => (t.1, f t.2), c.sense, c.rhs⟩
+  obj := m.obj.map fun t => (t.1, f t.2)
+
 end Aldy
